@@ -4,6 +4,23 @@ NOTES = ("Technique: machine-checked proof in Lean 4 about a hand-written execut
          "correspondence run on every check (DESIGN.md). fix: commits in /repo are listed in known_findings.json.")
 NOT_APPLICABLE = {}
 CHECKS = {
+    "C01": {
+        "text": ("Lean theorems (unbounded): the change events computed for (old destination listing, source listing) applied to the old listing give exactly "
+                 "the source listing (transfer_events_converge, both differs); in merge mode only additions are emitted (merge_never_deletes). "
+                 "Correspondence: real Send+Receive over an instrumented in-process stream, in-memory and on-disk sources, fresh/dirty/merge destinations; STAT "
+                 "sequence, REQ ids and notifications vs the Lean tree-level model; the executable C01 spec (destination snapshot = view: types, bytes, mode bits, "
+                 "owners, symlink targets, device numbers, hard-link groups, mtimes, xattrs of created entries; overlay in merge mode) judged on the real destination."),
+        "note": ("Trusted: Lean kernel + standard axioms; correspondence only on generated cases; POSIX effects of DiskWriter (syscall level) are observed via an "
+                 "independent lstat snapshot, not proved; unprivileged-receiver clause not exercised yet."),
+    },
+    "C05": {
+        "text": ("Lean theorems (unbounded): replaying the notified events on the old listing gives the new one (notifications_replay); nothing is notified when "
+                 "nothing changed (unchanged_is_silent). Correspondence: NotifyHashed callbacks of real transfers vs the model's event set, the executable "
+                 "listing-level spec (each changed path once, unchanged never, top-most deletes) on the real notifications, and the digest recomputed "
+                 "independently as hash(header of the stat as sent ++ bytes now stored)."),
+        "note": ("Trusted: Lean kernel + standard axioms; add and modify are both read as 'path now carries this entry' (the code reports every regular file "
+                 "as add); the hash is uninterpreted (sha256 in the harness)."),
+    },
     "C02": {
         "text": ("Lean theorems (unbounded): the transcribed sameFile/compareStat is exactly equality of the property's identity tuple (sameFile_iff_identity); "
                  "diffing a listing against itself emits nothing (resync_is_silent); for valid listings the emitted add/modify/delete events applied to the old "
